@@ -1027,6 +1027,9 @@ KNOWN_KEYS = {F2_SUM_KEY, F2_2D_KEY, BOX_KEY, BOXROT_KEY, CLOSE_NEG_KEY, CLOSE_O
 
 
 def run(ctx: Ctx):
+    # coqchk (thorough tier): the Fourier / weight-sum bound files are bulk `interval` computations whose re-evaluation in coqchk's
+    # own VM takes > 7 min EACH; they are checked by the kernel (coqc) only, the other seven property files are re-checked by coqchk.
+    ctx.coqchk_skip = ("C13_props_f1a", "C13_props_f1b", "C13_props_f2", "C13_props_weights")
     from grid.cubic import UniformGrid
 
     src = (SRC / "cubic.py").read_text()
